@@ -262,9 +262,15 @@ def check(ctx):
     for fid_self in ("push::error::stateful::StatefulError<S, E, Severity>", "push::error::Error<S, E>"):
         g = ctx.trait_fn("push::error::into_state::IntoState::into_state", fid_self)
         okg = True
+        stateful_impl = ctx.trait_fn("push::error::into_state::IntoState::into_state", "push::error::stateful::StatefulError<S, E, Severity>").id
         for p in return_paths(ctx.paths(g)):
             r = peel_box(("ref", p.ret, False))
-            okg = okg and r[0] == "field" and r[2] == "state" and not [c for c in p.calls() if not callee_is(c, "Drop::drop")]
+            direct = r[0] == "field" and r[2] == "state" and not [c for c in p.calls() if not callee_is(c, "Drop::drop")]
+            # Error<S, E>: a variant may hand its own StatefulError payload to that type's into_state (checked above)
+            cs = [c for c in p.calls() if not callee_is(c, "Drop::drop")]
+            deleg = fid_self.startswith("push::error::Error<") and callee_is(p.ret, "IntoState::into_state") and len(cs) == 1 and cs[0] == p.ret and len(p.ret[3]) == 1 and \
+                match(p.ret[3][0], Field(Param(1), 0)) and ((ctx.F.fns[p.ret[4][-2]].blocks[p.ret[4][-1]]["term"].get("res") or {}).get("def") == stateful_impl)
+            okg = okg and (direct or deleg)
         ctx.check(okg, "R02.4", "into_state/%s-returns-the-carried-state" % fid_self.split("::")[-1].split("<")[0], "*self.state", g.at())
     # the error value's own accessors: what a caller reads back is the carried state / error / severity
     E_ = "push::error::Error::<S, E>::"
